@@ -362,11 +362,13 @@ PROPS = {
         "monitors": ["admission"],
         "n_quick": 40000, "n_thorough": 400000, "thorough_seeds": 3,
         "rule": CODEC_RULE,
-        "level_text": "Full for events and the label stage, partial for filters so far: Event.Valid holds exactly for events meeting the NIP-01 constraints (validEvent_iff: 64/128 bytes of "
+        "level_text": "Full for the validators: ValidClientMsg judges a parsed message valid exactly when it meets the NIP-01 constraints (validClientMsg_iff: soundness and completeness in one), via "
+                      "validFilter_iff (ids/authors 64-byte lower-case hex, kinds in range, since/until/limit non-negative, since <= until), validTagCond_iff (name one ASCII letter; #e/#p/#a "
+                      "values ids/pubkeys/addresses) and validNaddr_iff (kind:pubkey:d with ANY d, also one containing ':'); Event.Valid holds exactly for events meeting the constraints (validEvent_iff: 64/128 bytes of "
                       "lower-case hex, kind in 0..65535, tags with a non-empty name), ids/pubkeys/sigs/kinds/tags each characterised (validID_iff ... validTag_iff), the label stage accepts any "
                       "JSON white space before and after '[' (labelOf_wellformed; the regexp is regenerated and pinned). Every validator condition is regenerated from the source, so a flipped "
-                      "operator changes the model the theorems are about. Filter validation (incl. a-addresses) and the composition with parsing are tied by the differential run and judged by "
-                      "the monitors: generated well-formed messages must be parsed and valid, and nothing judged valid may break the constraints (`msgOkB`).",
+                      "operator changes the model the theorems are about. The composition with parsing (JSON text -> message) is tied by the differential run and judged by "
+                      "the monitors: generated well-formed texts must be parsed and valid, and nothing judged valid may break the constraints (`msgOkB`).",
         "level_note": "Trusted: Lean kernel + standard axioms; go2lean; harness/driver; Go regexp semantics of \\s and \\w (hand-translated scanner, pinned pattern); strconv.ParseInt (hand-modelled).",
         "assumptions": ["a JSON null in place of an object is not claimed either way", "signed or zero-padded kind numbers inside an a value are not claimed either way"],
     },
